@@ -13,6 +13,9 @@ use std::sync::Mutex;
 use std::time::{Duration, Instant};
 
 pub const DEFAULT_SEED: u64 = 20261003;
+/// VERIF_SEED of this process (schedulers that split one sample over several runs derive the
+/// sample from it, so that all its chunks see the same sample).
+pub static GLOBAL_SEED: AtomicU64 = AtomicU64::new(DEFAULT_SEED);
 pub const HANG_SECS: u64 = 20;
 
 #[derive(Clone, Copy, PartialEq, Eq, Debug)]
@@ -183,7 +186,12 @@ pub fn spawn_watchdog(on_stuck: impl Fn(usize) + Send + 'static) {
 
 // ---- running ------------------------------------------------------------------------------------
 
+pub fn sample_prng(what: &str, sample: usize) -> Prng {
+    Prng::new(mix(GLOBAL_SEED.load(Ordering::SeqCst), &[label(what), sample as u64]))
+}
+
 pub fn run_one(f: RunFn, seed: u64, prop: &str, tier: Tier, i: usize) -> Sink {
+    GLOBAL_SEED.store(seed, Ordering::SeqCst);
     CUR_RUN.with(|c| c.set(i));
     let mut prng = Prng::new(run_seed(seed, prop, tier, i));
     let mut sink = Sink::new(i);
@@ -192,6 +200,7 @@ pub fn run_one(f: RunFn, seed: u64, prop: &str, tier: Tier, i: usize) -> Sink {
 }
 
 pub fn run_all(f: RunFn, seed: u64, prop: &str, tier: Tier, runs: usize, serial: bool) -> Merged {
+    GLOBAL_SEED.store(seed, Ordering::SeqCst);
     let sinks: Vec<Sink> = if serial {
         (0..runs).map(|i| run_one(f, seed, prop, tier, i)).collect()
     } else {
